@@ -382,6 +382,15 @@ func RunC15(tier string) int {
 			}
 		}
 	})
+	// transient read faults while dependency outputs are being loaded: every command that
+	// still runs must find its direct dependencies' outputs present and current, and a build
+	// that exits 0 must have left reference bytes
+	if report.Part("getfault") {
+		GetFaultPart(run, st, tierN(tier, 16, 120), tierN(tier, 8, 40), true, map[string]bool{"view": true, "bytes": true})
+	}
+	if report.Part("sysfault") {
+		SysFaultPart(run, st, tierN(tier, 6, 40), tierN(tier, 8, 30), map[string]bool{"read": true}, map[string]bool{"view": true, "bytes": true}, true)
+	}
 	run.Assume("under injected cache faults the executed sets may legitimately differ (a dependency whose outputs are irretrievable must be re-run under minimal, while under all they are already in the workspace): only exit status, dependency views and bytes are judged there")
 	return run.Finish()
 }
